@@ -15,6 +15,12 @@
 #include <lp/common.h>
 #include <mm/msg_allocator.h>
 
+#include <core/verif.h>
+#ifdef ROOTSIM_VERIF
+extern uint_fast64_t verif_now(void);
+#define timer_new() verif_now()
+#endif
+
 /// The messages queue of the serial runtime
 static heap_declare(struct lp_msg *) queue;
 
